@@ -302,6 +302,10 @@ where
         // MAV is provided by the context from whatever interface the command was received on
         if context.mav {
             stb |= StatusBit::Mav.mask();
+            // MAV is summarised in MSS like every other enabled status bit
+            if device.sre() & StatusBit::Mav.mask() != 0 {
+                stb |= StatusBit::RqsMss.mask();
+            }
         }
         response.data(stb).finish()
     }
